@@ -45,6 +45,24 @@ pub fn generate(tier: &str, seed: u64) -> Vec<String> {
 
 /// C04: elision. Same operations as C01, fill-heavy data (half of the writes are entirely fill, the rest mostly fill,
 /// repeated-fill strings, -0.0 / NaN payload neighbours), elision on and off, key listing after every operation.
+/// C04 through the ASYNC API: a third of the fill-heavy cases of `generate_c04` (those without partial encoding, which is a
+/// synchronous-only write strategy) as `c07` lines - every request is executed through the sync and the async methods on
+/// twin stores, key listings included (`store_empty_chunks` on in a quarter of the cases)
+pub fn generate_c04a(tier: &str, seed: u64) -> Vec<String> {
+    let lines = generate_c04(tier, seed ^ 0xA5);
+    let allowed = ["store_chunk", "store_chunks", "store_chunk_subset", "store_array_subset", "erase_chunk", "erase_chunks", "keys",
+        "retrieve_chunk", "retrieve_chunks", "retrieve_chunk_subset", "retrieve_array_subset", "retrieve_chunk_if_exists"];
+    let mut cases: Vec<Vec<String>> = vec![];
+    for l in lines { if l.contains(" cfg ") { cases.push(vec![]); } if let Some(c) = cases.last_mut() { c.push(l); } }
+    let mut out = vec![];
+    for (i, c) in cases.iter().enumerate() {
+        if i % 3 != 0 || c[0].contains(" penc=1 ") { continue; }
+        if !c[1..].iter().all(|l| { let v = l.split(' ').nth(2).unwrap_or(""); l.starts_with("c04 op ") && allowed.contains(&v) }) { continue; }
+        for l in c { out.push(format!("c07{}", &l[3..])); }
+    }
+    out
+}
+
 pub fn generate_c04(tier: &str, seed: u64) -> Vec<String> {
     let mut rng = Rng::new(seed ^ 0xC04);
     let thorough = tier == "thorough";
